@@ -82,6 +82,10 @@ class LoopContext:
     continue_jumps: List[int] = field(default_factory=list)
     label: Optional[str] = None
     is_loop: bool = True  # False for switch statements (break only, no continue)
+    # Operands the construct keeps on the stack while its body runs (the
+    # iterator of for-in/for-of, the discriminant of switch); a jump that
+    # leaves the construct has to pop them
+    stack_items: int = 0
 
 
 @dataclass
@@ -193,6 +197,18 @@ class Compiler:
         for try_ctx in reversed(self.try_stack):
             if try_ctx.finalizer:
                 self._compile_statement(try_ctx.finalizer)
+
+    def _emit_pops_for_exit(self, target: LoopContext) -> None:
+        """Pop the operands held by the constructs a break/continue jumps out of.
+
+        The target construct itself keeps its operand: its own exit code pops
+        it (break) or the loop goes on using it (continue).
+        """
+        for loop_ctx in reversed(self.loop_stack):
+            if loop_ctx is target:
+                break
+            for _ in range(loop_ctx.stack_items):
+                self._emit(OpCode.POP)
 
     def _add_constant(self, value: Any) -> int:
         """Add a constant and return its index."""
@@ -524,7 +540,7 @@ class Compiler:
             self.loop_stack.pop()
 
         elif isinstance(node, ForInStatement):
-            loop_ctx = LoopContext()
+            loop_ctx = LoopContext(stack_items=1)
             self.loop_stack.append(loop_ctx)
 
             # Compile object expression
@@ -582,18 +598,19 @@ class Compiler:
 
             self._emit(OpCode.JUMP, loop_start)
             self._patch_jump(jump_done)
-            self._emit(OpCode.POP)  # Pop iterator
-
-            # Patch break and continue jumps
+            # Patch break jumps here: a break also has to pop the iterator
             for pos in loop_ctx.break_jumps:
                 self._patch_jump(pos)
+            self._emit(OpCode.POP)  # Pop iterator
+
+            # Patch continue jumps
             for pos in loop_ctx.continue_jumps:
                 self._patch_jump(pos, loop_start)
 
             self.loop_stack.pop()
 
         elif isinstance(node, ForOfStatement):
-            loop_ctx = LoopContext()
+            loop_ctx = LoopContext(stack_items=1)
             self.loop_stack.append(loop_ctx)
 
             # Compile iterable expression
@@ -634,11 +651,12 @@ class Compiler:
 
             self._emit(OpCode.JUMP, loop_start)
             self._patch_jump(jump_done)
-            self._emit(OpCode.POP)  # Pop iterator
-
-            # Patch break and continue jumps
+            # Patch break jumps here: a break also has to pop the iterator
             for pos in loop_ctx.break_jumps:
                 self._patch_jump(pos)
+            self._emit(OpCode.POP)  # Pop iterator
+
+            # Patch continue jumps
             for pos in loop_ctx.continue_jumps:
                 self._patch_jump(pos, loop_start)
 
@@ -674,6 +692,9 @@ class Compiler:
             # Emit pending finally blocks before the break
             self._emit_pending_finally_blocks()
 
+            # Pop what the constructs nested inside the target keep on the stack
+            self._emit_pops_for_exit(ctx)
+
             pos = self._emit_jump(OpCode.JUMP)
             ctx.break_jumps.append(pos)
 
@@ -697,6 +718,9 @@ class Compiler:
 
             # Emit pending finally blocks before the continue
             self._emit_pending_finally_blocks()
+
+            # Pop what the constructs nested inside the target keep on the stack
+            self._emit_pops_for_exit(ctx)
 
             pos = self._emit_jump(OpCode.JUMP)
             ctx.continue_jumps.append(pos)
@@ -781,7 +805,8 @@ class Compiler:
 
             # Case bodies
             case_positions = []
-            loop_ctx = LoopContext(is_loop=False)  # For break statements only
+            # For break statements only; the discriminant stays on the stack
+            loop_ctx = LoopContext(is_loop=False, stack_items=1)
             self.loop_stack.append(loop_ctx)
 
             for i, case in enumerate(node.cases):
@@ -790,6 +815,9 @@ class Compiler:
                     self._compile_statement(stmt)
 
             self._patch_jump(jump_end)
+            # Patch break jumps here: a break also has to pop the discriminant
+            for pos in loop_ctx.break_jumps:
+                self._patch_jump(pos)
             self._emit(OpCode.POP)  # Pop discriminant
 
             # Patch jumps to case bodies
@@ -798,10 +826,6 @@ class Compiler:
             if default_jump:
                 pos, idx = default_jump
                 self._patch_jump(pos, case_positions[idx])
-
-            # Patch break jumps
-            for pos in loop_ctx.break_jumps:
-                self._patch_jump(pos)
 
             self.loop_stack.pop()
 
